@@ -39,6 +39,8 @@ func stateJobs(quick bool) []gossipJob {
 			{P: P("S9", 170, 3, 3, 0, 1, false), Need: []string{"TruncatedDeltas"}},
 			{P: P("S10", 1400, 2, 2, 0, 0, false)},
 			{P: P("S11", 200, 3, 3, 0, 1, false), Need: []string{"TruncatedDeltas"}},
+			{P: P("S12", 1400, 3, 3, 0, 1, false)},
+			{P: P("S2", 1400, 4, 3, 0, 1, false), Need: []string{"MarkersApplied"}},
 		}
 	}
 	d := sec(120)
@@ -58,6 +60,7 @@ func stateJobs(quick bool) []gossipJob {
 		{P: P("S8", 145, 4, 4, 1, 2, false), Deadline: d, Need: []string{"LeavesSeen", "TruncatedDeltas"}},
 		{P: P("S9", 170, 4, 4, 1, 2, false), Deadline: d, Need: []string{"TruncatedDeltas"}},
 		{P: P("S10", 1400, 3, 3, 1, 1, false), Deadline: d},
+		{P: P("S12", 1400, 4, 4, 1, 1, false), Deadline: d},
 	}
 }
 
@@ -172,6 +175,9 @@ func init() {
 		}
 		runGossip(run, "C11", jobs)
 		c11DetectorLoop(run, "C11")
+		// a restarted node keeps its id: what peers remember of the previous
+		// incarnation never declares the new one left (seq_c11_self.go)
+		run.Set("own_identity_cases", c11OwnIdentity(run, "C11"))
 		// "restored when heard from again" presupposes that a flagged node is
 		// still spoken to: the real gossipRound, every combination of peer classes
 		cases, probs := gw.CheckGossipRound()
@@ -215,6 +221,9 @@ func init() {
 			}
 		}
 		runGossip(run, "C04", jobs)
+		// the routing table is fed by notifications issued by concurrent
+		// handlers: programs L, G and H under every schedule up to the bound
+		schedPass(run)
 		return run.Finish()
 	})
 }
